@@ -130,8 +130,24 @@ def nontrivial(c):
 
 
 def main(tier):
-    return pprop.run_property(PROP, tier, cases_for(tier), oracle, RULE, nontrivial=nontrivial)
+    return pprop.run_property(PROP, tier, cases_for(tier), oracle, RULE, nontrivial=nontrivial,
+                              extra=pprop.explicit_over_default('max_seq_len', 2, (None, 1, 3, 1000)))
 
 
 def replay(path):
+    import json
+    p = json.load(open(path))
+    if p.get('kind') == 'explicit-over-default':
+        import prettyprinter as P
+        import printercheck as PC_
+        v = valgen.build(PC_.unjson(p['term']))[0]
+        factory = dict(P.get_default_config())
+        base, _ = PC_.impl_pformat(v, p['cfg'])
+        P.set_default_config(**{p['key']: p['configured_default']})
+        try:
+            got, _ = PC_.impl_pformat(v, p['cfg'])
+        finally:
+            P.set_default_config(**{p['key']: factory[p['key']]})
+        print('same' if got == base else 'DIFFERENT:\n%s\n---\n%s' % (got[:300], base[:300]))
+        return 0 if got == base else 1
     return pprop.replay_property(path, oracle)
